@@ -12,7 +12,7 @@ git -C /repo worktree add -q --detach $wt HEAD || exit 2
 cd $wt
 extra=""
 grep -q "PIQP_VERIF" $in/demo.cpp && extra="-DPIQP_VERIF"
-grep -q "matio" $in/demo.cpp && libs="-lmatio" || libs=""
+grep -q "matio\|io_utils" $in/demo.cpp && libs="-lmatio" || libs=""
 grep -q "piqp.h" $in/demo.cpp && inc="-I$wt/interfaces/c/include" || inc=""
 sed "s#/tmp/wt_[a-z0-9]*#$wt#g" $in/demo.cpp > $wt/demo.cpp
 g++ -std=c++14 -O1 $extra -I$wt/include $inc -I/usr/include/eigen3 demo.cpp -o demo0 $libs > demo0.log 2>&1; c0=$?
